@@ -16,6 +16,23 @@ pub fn parse_cosm(line: &str) -> Option<CosmeticFilter> {
     }
 }
 
+/// what the generic stores of the cache rely on (Lean: `generic_is_plain_hide`): a rule without any
+/// location is a plain hide rule
+pub fn generic_rule_defect(f: &CosmeticFilter) -> Option<&'static str> {
+    if f.has_hostname_constraint() {
+        return None;
+    }
+    if f.mask.contains(CosmeticFilterMask::UNHIDE) {
+        Some("a generic exception was loaded")
+    } else if f.mask.contains(CosmeticFilterMask::SCRIPT_INJECT) {
+        Some("a generic scriptlet injection was loaded")
+    } else if f.action.is_some() {
+        Some("a generic action rule was loaded")
+    } else {
+        None
+    }
+}
+
 fn opt_hashes(o: &Option<Vec<u64>>) -> String {
     match o {
         None => "-".into(),
@@ -84,6 +101,13 @@ fn location(r: &mut Rng) -> String {
         let h = r.pick(&["a.com", "sub.a.com", "x.sub.a.com", "b.co.uk", "s.b.co.uk", "co.uk", "com", "c.org", "a.*", "sub.a.*", "b.*", "s.b.*", "localhost", "e.com", "d.e.com", "10.0.0.1", "b\u{fc}cher.example", "m\u{fc}nchen.b\u{fc}cher.example", "\u{43f}\u{440}\u{438}\u{43c}\u{435}\u{440}.\u{440}\u{444}"]);
         parts.push(format!("{}{}", if r.pct(25) { "~" } else { "" }, h));
     }
+    // a location list that is present but empty, or has empty parts
+    if r.pct(6) {
+        parts.insert(0, String::new());
+        if parts.len() == 1 {
+            parts.push(String::new());
+        }
+    }
     parts.join(",")
 }
 
@@ -132,6 +156,11 @@ pub fn run_c16(seed: u64, n: usize, out: &mut Out) {
         let mut e = Engine::from_rules_parametrised(&lines, Default::default(), true, true);
         e.use_resources(resources.clone());
         let crules: Vec<CosmeticFilter> = lines.iter().filter_map(|l| parse_cosm(l)).collect();
+        for f in &crules {
+            if let Some(what) = generic_rule_defect(f) {
+                out.fail("generic-rule-is-not-a-plain-hide", None, json!({"rule": f.raw_line.as_ref().map(|b| (**b).clone()), "what": what}));
+            }
+        }
         let dumps: Vec<String> = crules.iter().map(dump_crule).collect();
         // the locations of each rule, recomputed from its text through the URL normaliser (an independent
         // route to the punycode spelling), must be the hashes the parser stored
@@ -231,6 +260,11 @@ pub fn run_c17(seed: u64, n: usize, out: &mut Out) {
         }
         let e = Engine::from_rules_parametrised(&lines, Default::default(), true, true);
         let crules: Vec<CosmeticFilter> = lines.iter().filter_map(|l| parse_cosm(l)).collect();
+        for f in &crules {
+            if let Some(what) = generic_rule_defect(f) {
+                out.fail("generic-rule-is-not-a-plain-hide", None, json!({"rule": f.raw_line.as_ref().map(|b| (**b).clone()), "what": what}));
+            }
+        }
         let dumps: Vec<String> = crules.iter().map(dump_crule).collect();
         let classes: Vec<String> = (0..r.below(4)).map(|_| r.pick(&["ad", "ad-banner", "a:b", "123", "x", "AD", "_a", "ad.x", "nope", ""]).to_string()).collect();
         let ids: Vec<String> = (0..r.below(3)).map(|_| r.pick(&["ad", "top_ad", "Ad", "banner", "-x_y", "nope"]).to_string()).collect();
